@@ -17,5 +17,9 @@ Laws ==
   /\ SubSeq(PConcat(a, b), 1, Len(a)) = a /\ SubSeq(PConcat(a, b), Len(a) + 1, Len(a) + Len(b)) = b
   /\ (Len(a) = 0 /\ Len(b) = 0 => PAdd(k, a, b) = <<>> /\ PXor(k, a, b) = <<>> /\ POr(k, a, b) = <<>>)
   /\ (k = 2 => PSplit(a, 1, FALSE) = (LET RECURSIVE Cat(_) Cat(j) == IF j = 0 THEN <<>> ELSE Cat(j-1) \o << <<a[j][1]>>, <<a[j][2]>> >> IN Cat(Len(a))))
+  /\ PMul(k, a, b) = PMul(k, b, a) /\ Len(PMul(k, a, b)) = Len(a) + Len(b)
+  /\ PDegree(k, PMul(k, a, b)) <= (IF PIsZero(k, a) \/ PIsZero(k, b) THEN -1 ELSE PDegree(k, a) + PDegree(k, b))
+  /\ (PIsZero(k, a) => PIsZero(k, PMul(k, a, b))) /\ PEq(k, a, a) /\ PEq(k, a, a \o <<Zeros(k)>>) /\ (PEq(k, a, b) <=> PIsZero(k, PSub(k, a, b)))
+  /\ (Len(a) >= 1 => PEq(k, PMul(k, a, <<FromNat(1, k)>>), a))
   /\ \A i1 \in 1..Len(a) : LET r == PSetList(a, <<i1 - 1>>, <<Ones(k)>>) IN r[i1] = Ones(k) /\ \A j \in 1..Len(a) : j # i1 => r[j] = a[j]
 =============================================================================
